@@ -30,7 +30,7 @@ macro "t4_unfold" : tactic =>
       -- explicit 3×3 matrices (Common/M3)
       M3.mandel3, M3.mandel2, M3.mandel1, M3.ofMandel, M3.tens3, M3.tens2, M3.tens1,
       M3.ofTens, M3.sym, M3.diag, M3.mul_def, M3.mul, M3.one_def, M3.one, M3.add_def, M3.add, M3.sub_def, M3.sub,
-      M3.smul_def, M3.smul, M3.transpose, M3.plane, M3.rowMajor, M3.outer, M3.trace, M3.det, M3.frob, M3.mk.injEq,
+      M3.smul_def, M3.smul, M3.transpose, M3.plane, M3.planeRot, M3.rowMajor, M3.outer, M3.trace, M3.det, M3.frob, M3.mk.injEq,
       List.cons.injEq, and_true, true_and])
 
 /-- `t4_eq hc`: equality of a generated list with the storage of its index-notation specification,
